@@ -207,6 +207,52 @@ Theorem C11_diskset_any_order_partial : forall files files' pos,
 Proof. exact locate_any_order. Qed.
 Print Assumptions C11_diskset_any_order_partial.
 
+(** [sadump_probe] accepts a consistent disk set - same block size, system id,
+    disk-set id and time stamp everywhere, disk #1's volume table listing
+    every disk's volume id, disk numbers 1..n - in EVERY order of the files,
+    and files the extents exactly as the theorems above assume ([assemble]).
+    The model covers the checks of [open_common] / [process_vol_id] /
+    [init_disk_set] on header *fields*; reading the fields from the file bytes
+    is exercised end to end only (engine flat-e2e compares the status of
+    [kdump_open_fdset] with [probe_set] for every set and order it builds). *)
+Theorem C11_diskset_accepted_any_order : forall hs hs',
+  consistent_set hs -> Permutation hs hs' ->
+  exists exts, probe_set false hs' = inl exts /\ assemble (List.map disk_of hs') = Some exts.
+Proof. exact consistent_accepted_any_order. Qed.
+Print Assumptions C11_diskset_accepted_any_order.
+
+(** the off-by-one variant of [init_disk_set] (seeded change C11-c2:
+    [check_vol_id(.., i)] instead of [i + 1]) refutes that statement: a
+    consistent three-disk set with distinct volume ids is accepted in disk
+    order and refused with KDUMP_ERR_CORRUPT when disk #1 comes last *)
+Definition ex_hdr (num vol : N) (tab : list N) : hdr :=
+  {| h_num := num; h_pos := 4096; h_len := 8192; h_bs := 4096; h_sys := 7; h_set := 8; h_time := 9;
+     h_vol := vol; h_disks := (if (num =? 1)%N then 3 else 0)%N; h_table := tab |}.
+Definition ex_set : list hdr := [ex_hdr 1 11 [11; 22; 33]; ex_hdr 2 22 []; ex_hdr 3 33 []]%N.
+Definition ex_set_231 : list hdr := [ex_hdr 2 22 []; ex_hdr 3 33 []; ex_hdr 1 11 [11; 22; 33]]%N.
+
+Example C11_diskset_offbyone_refuted :
+  consistent_set ex_set /\ Permutation ex_set ex_set_231 /\
+  (exists exts, probe_set true ex_set = inl exts) /\
+  probe_set true ex_set_231 = inr ST_CORRUPT /\
+  (exists exts, probe_set false ex_set_231 = inl exts).
+Proof.
+  split.
+  { split.
+    - split.
+      + cbn. repeat constructor; cbn [In]; intuition discriminate.
+      + intros d [<-|[<-|[<-|[]]]]; cbn; split; discriminate.
+    - exists 4096%N, 7%N, 8%N, 9%N, [11; 22; 33]%N. split; [reflexivity|].
+      intros h [<-|[<-|[<-|[]]]]; cbn; repeat split; try reflexivity; try discriminate. }
+  split.
+  { unfold ex_set, ex_set_231.
+    apply (Permutation_cons_app [ex_hdr 2 22 []; ex_hdr 3 33 []] [] (ex_hdr 1 11 [11; 22; 33])%N).
+    rewrite app_nil_r. apply Permutation_refl. }
+  split; [eexists; vm_compute; reflexivity|].
+  split; [vm_compute; reflexivity|].
+  eexists; vm_compute; reflexivity.
+Qed.
+
 (** non-vacuity: three disks (the middle one without data), passed as 3,1,2:
     position 2 is the first byte of disk 3 - the case [pos >= data_len] vs
     [pos > data_len] decides *)
